@@ -334,7 +334,10 @@ impl Engine {
         }
     }
 
-    fn dump_cells(&self, obs: &mut Vec<u64>) {
+    /// raw borrow flag of every column of both worlds (cfg(hecs_verif) hook): reader count, plus 2^63
+    /// when uniquely borrowed; returns whether any flag is non-zero
+    fn dump_cells(&self, obs: &mut Vec<u64>) -> bool {
+        let mut held = false;
         for w in 0..2 {
             if !self.live_pub(w) {
                 obs.push(7);
@@ -345,22 +348,15 @@ impl Engine {
             for a in world.archetypes() {
                 for t in 0..NTYPES as u64 {
                     with_comp!(t, C, {
-                        if a.has::<C>() {
-                            // trial borrows, dropped at once: unique succeeds iff free; shared iff no writer
-                            let free = catch_unwind(AssertUnwindSafe(|| drop(a.get::<&mut C>()))).is_ok();
-                            let code = if free {
-                                0
-                            } else if catch_unwind(AssertUnwindSafe(|| drop(a.get::<&C>()))).is_ok() {
-                                1
-                            } else {
-                                2
-                            };
-                            obs.push(code);
+                        if let Some(raw) = a.verif_borrow_raw::<C>() {
+                            held |= raw != 0;
+                            obs.push(raw as u64);
                         }
                     });
                 }
             }
         }
+        held
     }
 
     fn drop_slot(&mut self, i: usize) -> bool {
@@ -707,9 +703,9 @@ impl Engine {
                     }
                 }
                 let mut obs = Vec::new();
-                self.dump_cells(&mut obs);
-                // every guard is gone: everything must be borrowable again
-                if obs.iter().any(|c| *c == 1 || *c == 2) {
+                let held = self.dump_cells(&mut obs);
+                // every guard is gone: every flag must be back to zero
+                if held {
                     if self.guards.tainted.iter().any(|t| *t) {
                         out.flag("C05: columns still borrowed after all guards were dropped, following a failed acquisition (partial borrows are not rolled back)".to_string());
                     } else {
